@@ -60,7 +60,12 @@ func newStressWorld(dir string) (*stressWorld, error) {
 			"{{ sl|slice(1, 2)|merge([x, x])|join(',') }}|{{ sm|merge({'k': x})|keys|join(',') }}|{{ gl|merge([x])|join(',') }}|{{ ss|merge([x])|join(',') }}|{{ sl|join(',') }}]",
 		// an include that fails while its with-values are evaluated (error path), next to ones that work
 		"failinc": "f<{% include 'plain' with {'x': x} %}{% include 'incl' with {'x': x, 'y': x|nosuchfilter} %}>",
-		"meth":    "m[{{ u.PLabel }}|{{ u.Name }}|{{ u.VLabel }}|{{ p.PLabel }}|{{ p.Inner.Tag }}|{{ tm.k }}|{{ u.Tag }}]",
+		// a spaceless block with a loop and an include in it (what a node collects while it renders belongs to the render)
+		"spc": "{% spaceless %}<p> {% for i in range(1, 30) %}<b> {{ x }}{{ i }} </b> {% include 'plain' %} {% endfor %}</p>{% endspaceless %}",
+		// a method that renders another template on the same engine while it is called
+		"nest":   "n[{{ nu.Teaser }}|{{ nu.Tag }}]",
+		"teaser": "t<{{ item.Tag }}{{ item2.VLabel }}>",
+		"meth":   "m[{{ u.PLabel }}|{{ u.Name }}|{{ u.VLabel }}|{{ p.PLabel }}|{{ p.Inner.Tag }}|{{ tm.k }}|{{ u.Tag }}]",
 	}}
 	files := map[string]string{
 		"dirA/main.twig":     "A:{% include './part.twig' %}:{{ x }}",
@@ -69,6 +74,10 @@ func newStressWorld(dir string) (*stressWorld, error) {
 		"dirB/part.twig":     "partB({{ x }})",
 		"dirB/sub/deep.twig": "D:{% include '../part.twig' %}{% extends '../layout.twig' %}",
 		"dirB/layout.twig":   "L[{% block bb %}l{% endblock %}{{ x }}]",
+		// one library macro that includes the neighbour of whoever calls it, called from two directories
+		"relib.twig":         "{% macro inc() %}i<{% include './part.twig' %}>{% endmacro %}",
+		"dirA/viamacro.twig": "{% import 'relib.twig' as L %}vA:{{ L.inc() }}{{ x }}",
+		"dirB/viamacro.twig": "{% import 'relib.twig' as L %}vB:{{ L.inc() }}{{ x }}",
 		"dirB/sub/kid.twig":  "{% extends '../layout.twig' %}{% block bb %}kid{{ x }}{% endblock %}",
 	}
 	for name, src := range files {
@@ -117,13 +126,27 @@ type sCall struct {
 	GotVer int    `json:"gotver"` // for renders of versioned names: the version printed
 }
 
-var renderNames = []string{"shared", "shared", "failinc", "meth", "meth", "plain", "incl", "child", "imp", "loop", "big", "meth", "meth", "dirA/main.twig", "dirB/main.twig", "dirB/sub/kid.twig"}
+var renderNames = []string{"shared", "shared", "failinc", "spc", "spc", "nest", "meth", "meth", "plain", "incl", "child", "imp", "loop", "big", "meth", "meth", "dirA/main.twig", "dirB/main.twig", "dirB/sub/kid.twig", "dirA/viamacro.twig", "dirB/viamacro.twig"}
 
 type stressInner struct{ Tag string }
 type stressUser struct {
 	stressInner
 	Name  string
 	Inner stressInner
+}
+
+// nestUser: reading its Teaser renders a template on the same engine (attribute lookups inside an attribute lookup)
+type nestUser struct {
+	e   *twig.Engine
+	Tag string
+}
+
+func (n nestUser) Teaser() string {
+	out, err := n.e.Render("teaser", map[string]interface{}{"item": stressInner{Tag: "in" + n.Tag}, "item2": stressUser{Name: n.Tag}})
+	if err != nil {
+		return "ERR:" + err.Error()
+	}
+	return out
 }
 
 func (u *stressUser) PLabel() string { return "<" + u.Name + ">" }
@@ -141,7 +164,7 @@ func doCall(e *twig.Engine, c *sCall) {
 	ctx := map[string]interface{}{"x": c.X, "sl": sharedList, "ss": sharedStrings, "sm": sharedMap,
 		"u":  stressUser{stressInner: stressInner{Tag: "t" + c.X}, Name: c.X, Inner: stressInner{Tag: "i" + c.X}},
 		"p":  &stressUser{Name: "p" + c.X, Inner: stressInner{Tag: "j" + c.X}},
-		"tm": map[string]string{"k": "k" + c.X}}
+		"tm": map[string]string{"k": "k" + c.X}, "nu": nestUser{e: e, Tag: c.X}}
 	poolCaller(ctx)
 	var out string
 	var err error
@@ -247,6 +270,10 @@ func cmdStress(args []string) {
 				c.Op, c.Name = "render", []string{"v1", "v2"}[rnd.Intn(2)]
 			default:
 				c.Op, c.Name = "render", "plain"
+			}
+			// every goroutine starts with the same three heavy templates, so that their renders overlap
+			if s < 3 {
+				c.Op, c.Name, c.Ver = "render", []string{"spc", "nest", "big"}[s], 0
 			}
 			plans[gi] = append(plans[gi], c)
 		}
